@@ -11,7 +11,7 @@ def run(v, tier, rng):
         tlc_require_ok(r, spec)
         v.add_tlc(spec + ":" + mc, r)
     replay_proto(v, "push", False, "proto/Push.tla", "Push_gen2.cfg" if thorough else "Push_gen.cfg", rng,
-                 nrandom=2000 if thorough else 300)
+                 nrandom=2000 if thorough else 300, limit=None if thorough else 6000)
     replay_proto(v, "pull", False, "proto/Pull.tla", "Pull_gen2.cfg" if thorough else "Pull_gen.cfg", rng,
                  nrandom=2000 if thorough else 300)
     v.cov["distinct_nontrivial"] = sum(x["edges"] for x in v.cov["edge_cover"].values())
